@@ -62,7 +62,7 @@ async fn create_group(h: &mut Harness, c: usize, stream: &IdRef, topic: &IdRef, 
     if !ready(h, c) {
         return;
     }
-    let result = h.clients[c].as_ref().unwrap().create_consumer_group(&stream.to_identifier(), &topic.to_identifier(), name, id).await;
+    let result = crate::routed!(h, c, create_consumer_group(&stream.to_identifier(), &topic.to_identifier(), name, id));
     if !h.perm_gate("create_consumer_group", result.is_ok(), result.as_ref().err()) {
         return;
     }
@@ -97,7 +97,7 @@ async fn delete_group(h: &mut Harness, c: usize, stream: &IdRef, topic: &IdRef, 
     if !ready(h, c) {
         return;
     }
-    let result = h.clients[c].as_ref().unwrap().delete_consumer_group(&stream.to_identifier(), &topic.to_identifier(), &group.to_identifier()).await;
+    let result = crate::routed!(h, c, delete_consumer_group(&stream.to_identifier(), &topic.to_identifier(), &group.to_identifier()));
     if !h.perm_gate("delete_consumer_group", result.is_ok(), result.as_ref().err()) {
         return;
     }
